@@ -243,6 +243,9 @@ func newNode() *topicNode {
 
 func (node *topicNode) addClients(ans map[string]byte) {
 	for client, qos := range node.clients {
-		ans[client] = qos
+		// a client with several matching filters is served at the highest QoS it asked for
+		if old, ok := ans[client]; !ok || qos > old {
+			ans[client] = qos
+		}
 	}
 }
